@@ -109,16 +109,25 @@ class World:
         except BaseException as exc:                    # pylint: disable=W0703
             out["topo"] = []
             out["topoexc"] = type(exc).__name__
-        out["entry"] = self.ids(list(s.entry_jobs()))
-        out["exit_t"] = self.ids(list(s.exit_jobs()))
-        out["exit_f"] = self.ids(list(s.exit_jobs(discard_forever=False)))
         starts = self.objs(qa)
-        out["pred"] = self.ids(list(s.predecessors(*starts)))
-        out["succ"] = self.ids(list(s.successors(*starts)))
-        out["up"] = self.ids(list(s.predecessors_upstream(*starts)))
-        out["down"] = self.ids(list(s.successors_downstream(*starts)))
-        out["iter_f"] = self.ids(list(s.iterate_jobs()))
-        out["iter_t"] = self.ids(list(s.iterate_jobs(scan_schedulers=True)))
+
+        def guarded(key, fun):
+            """a query that raises is recorded as the (impossible) answer [-1]"""
+            try:
+                out[key] = self.ids(list(fun()))
+            except BaseException as exc:                # pylint: disable=W0703
+                out[key] = [-1]
+                out.setdefault("qexc", type(exc).__name__)
+        guarded("entry", s.entry_jobs)
+        guarded("exit_t", s.exit_jobs)
+        guarded("exit_f", lambda: s.exit_jobs(discard_forever=False))
+        guarded("pred", lambda: s.predecessors(*starts))
+        guarded("succ", lambda: s.successors(*starts))
+        guarded("up", lambda: s.predecessors_upstream(*starts))
+        guarded("down", lambda: s.successors_downstream(*starts))
+        guarded("iter_f", s.iterate_jobs)
+        guarded("iter_t", lambda: s.iterate_jobs(scan_schedulers=True))
+        out.setdefault("qexc", "none")
         out["len"] = len(s)
         return out
 
